@@ -187,6 +187,13 @@ func (c14) Case(c *core.Ctx) {
 	if r.Intn(4) == 0 {
 		cfg.Snake = true // the skip function is asked about the key as it appears in the Map (a_b, not a-b)
 	}
+	if r.Intn(6) == 0 {
+		cfg.SeqNum = true // IncludeTagSeqNum wraps simple values as {text key, _seq}: the same wrapping with and without the cast flag
+		if cfg.AttrPrefix != "" && strings.HasPrefix("_seq", cfg.AttrPrefix) {
+			cfg.AttrPrefix = "@" // (the lock-step walker tells attributes from other entries by the prefix: "_seq" must not look like one)
+		}
+		c.Count("option:tag-seq-numbers")
+	}
 	c.Distinct("flagcombos", uint64(bits))
 	root := c14gen.Gen(r, r.Intn(5))
 	if cfg.usesReserved(root) || cfg.keyClash(root) || cfg.elemStartsWithAttrPrefix(root) { // (the lock-step walker tells attributes from elements by the prefix)
